@@ -150,6 +150,53 @@ def gate_classifier(found, param=1, var='gate'):
     return classify
 
 
+def err_verdict_escapes(facts, body, it, call_bbs, base_atom=None, assumption=None, frame=None):
+    """The calls ending the blocks `call_bbs` return a Result (a validation verdict).  Assume that verdict is Err: every value
+    the function can then return must be an Err (the verdict itself, possibly through `?` / map_err / and_then / map / a local,
+    or an explicit Err).  -> the descriptions of returned values that are not (empty list = the Err always propagates)."""
+    from ..ordset import Reach, Evaluator
+    vterms = set(drop_lv(it.calls[bb].term) for bb in call_bbs)
+
+    def verdict_core(t):
+        t = drop_lv(t)
+        for _ in range(6):
+            if t in vterms:
+                return True
+            if t[0] == 'phi':
+                return all(verdict_core(a) for a in t[1])
+            if t[0] == 'call' and call_name(t) in ('branch', 'map_err', 'and_then', 'map', 'into', 'from') and t[2]:
+                t = drop_lv(t[2][0])
+                continue
+            if t[0] == 'field' and t[2] in ('Break.0', 'Err.0'):
+                t = drop_lv(t[1])
+                continue
+            return False
+        return False
+
+    def atom(t):
+        if t[0] == 'discr' and verdict_core(t[1]):
+            return ('map', 'verr', {True: 1, False: 0})      # Err / Break are variant 1 of Result / ControlFlow
+        if is_call(t, ('is_err', 'is_ok')) and t[2] and verdict_core(t[2][0]):
+            return 'verr' if call_name(t) == 'is_err' else ('not', 'verr')
+        return base_atom(t) if base_atom is not None else None
+    rc = Reach(facts, body, Evaluator(facts, bool_atom=atom, assumption=dict(assumption or {}, verr=True)))
+    if not any(bb in rc.reachable for bb in call_bbs):
+        return []
+    if frame is not None:
+        # the verdict is computed once per iteration of a loop: from each such call every path returns an Err before the next
+        # iteration starts
+        errs_s = [b for b, _ in ret_sites_by(it, lambda v: is_variant(v, 'result::Result', 'Err') or is_call(v, 'from_residual') or verdict_core(v))]
+        bad = [bb for bb in call_bbs if bb in rc.reachable and not (errs_s and rc.must_pass(errs_s, start=bb, stops=(frame[1],)))]
+        return ['the next iteration / the end of the scan (from line %d)' % block_line(it, bb) for bb in bad]
+    kinds = set()
+    for rb in [b for b in rc.return_blocks() if b in rc.reachable]:
+        for t_ in rc.reaching_terms(0, rb):
+            for a_ in phi_alts(drop_lv(t_)):
+                if not (is_variant(a_, 'result::Result', 'Err') or is_call(a_, 'from_residual') or verdict_core(a_)):
+                    kinds.add(fmt(a_, 3))
+    return sorted(kinds)
+
+
 def block_line(it, bb):
     c = it.calls.get(bb)
     if c is not None:
